@@ -217,7 +217,8 @@ def sampler_stratified(ctx, case):
             out = samplers.stratified(S, _nz_idx(case), knz, kz, case["over_sample_rate"])
     subs, vals, wts, n = _check_triple(ctx, out, A.ndim)
     if not impossible:
-        ctx.check(n == knz + kz, "number-of-samples-as-requested", f"{n} vs {knz}+{kz}")
+        # (the zero rejection sampler documents that it may obtain fewer zeros than requested)
+        ctx.check(knz <= n <= knz + kz, "number-of-samples-at-most-as-requested", f"{n} vs {knz}+{kz}")
     _check_stratified(ctx, A, subs, vals, wts, knz)
     ctx.check(np.array_equal(ref.den(S), A), "sampler-leaves-data")
 
@@ -627,7 +628,10 @@ def _stochastic_body(ctx, case):
     full_trace = len(trace) == 1 + epochs
     off = "last-epoch-missing" if len(trace) == epochs else "length-off"
     ctx.check(full_trace, f"trace-has-start-plus-one-value-per-epoch[{off}]", f"{len(trace)} values for {epochs} epochs")
-    ctx.require(len(trace) >= 1 and bool(np.all(np.isfinite(trace))), "trace-finite", trace)
+    ctx.require(len(trace) >= 1 and np.isfinite(trace[0]), "trace-starts-finite", trace)
+    # a failed epoch may report +inf (it is rolled back); NaN must never be accepted as the best model
+    has_nan = bool(np.isnan(trace).any()) or any(bool(np.isnan(f).any()) for f in M.factor_matrices)
+    ctx.require(not has_nan, "no-nan-in-trace-or-returned-model", trace)
     run_min = np.minimum.accumulate(trace)
     failed = bool(np.any(trace[1:] > run_min[:-1])) if len(trace) > 1 else False
     ctx.label("failed-epoch" if failed else "no-failed-epoch", f"epochs={epochs}")
@@ -635,7 +639,7 @@ def _stochastic_body(ctx, case):
     # bounds
     low = min(float(np.min(f)) for f in M.factor_matrices)
     ctx.check(low >= lb, "factor-entries-respect-lower-bound", f"min entry {low} < {lb}")
-    ctx.check(all(np.all(np.isfinite(f)) for f in M.factor_matrices), "model-finite")
+    ctx.check(all(np.all(np.isfinite(f)) for f in M.factor_matrices), "returned-model-finite")
     # estimates on the fixed function sample
     F0, tol0 = _sample_estimate(name, fh, M0, rec.fsamples[0])
     ctx.check(abs(trace[0] - F0) <= tol0, "trace-starts-at-estimate-of-initial-model", f"{trace[0]!r} vs {F0!r} tol {tol0:.3g}")
@@ -843,5 +847,6 @@ PREDICATES = {
     "at_least_one_epoch": lambda case: case["solver"]["max_iters"] >= 1,
     "sampler_gcp_uniform_func": lambda case: case.get("sampler") == "gcp-uniform-func",
     "sampler_gcp_uniform_grad": lambda case: case.get("sampler") == "gcp-uniform-grad",
+    "aggressive_step": lambda case: case["solver"]["kind"] == "adagrad" or case["solver"]["rate"] >= 0.3,
     "sizes_differ": lambda case: len({(tuple(p["shape"]), p["rank"]) for p in case["problems"]}) > 1,
 }
